@@ -21,7 +21,7 @@ def sh(cmd, **kw):
 
 
 def main():
-    ids = sys.argv[1:] or sorted(d for d in os.listdir(SEEDED) if os.path.isdir(os.path.join(SEEDED, d)))
+    ids = sys.argv[1:] or sorted(d for d in os.listdir(SEEDED) if os.path.isfile(os.path.join(SEEDED, d, "patch.diff")))
     dirty = sh("git -C /repo status --short | grep -v '^??'").stdout.strip()
     if dirty:
         print("/repo has uncommitted changes, refusing:\n" + dirty)
